@@ -238,10 +238,10 @@ def plans_for(chk):
     sc = oq.scale()
     if chk.quick:
         return [("InitPart1", dict(base, K=1, GridKeepF=max(1, int(70 * sc)), GridKeep=max(1, int(30 * sc)), NQ=int(1500 * sc)))]
-    return [("InitPart1", dict(base, K=2, NQ=int(12000 * sc))),
-            ("InitPart1", dict(base, K=1, NQ=int(12000 * sc))),
-            ("InitPart1", dict(base, K=0, NQ=int(5000 * sc), NP=2, NC=3, NG=3)),
-            ("InitExh", dict(base, NP=2, NC=2, NG=1, MaxV=1, K=2))]
+    return [("InitPart1", dict(base, K=1, NQ=int(6000 * sc))),
+            ("InitPart1", dict(base, K=0, NQ=int(10000 * sc))),
+            ("InitPart1", dict(base, K=0, NQ=int(3000 * sc), NP=2, NC=3, NG=3)),
+            ("InitExh", dict(base, NP=2, NC=2, NG=1, MaxV=1, K=1))]
 
 
 def main(chk):
